@@ -107,6 +107,28 @@ def check(run):
         E.record_failures(run, s, bad, seen)
 
 
+    # the READ side fills its tables entry by entry (no de-duplication): in a file of another writer that stores an equal address or
+    # name twice, every stored index must still denote the entry it denoted in the file
+    import foreign
+    lines, metas = [], []
+    for s, r in zip(sessions, res):
+        if r["results"] is None:
+            continue
+        for oi, (data, err) in enumerate(r["plain"]):
+            d = r["rd"].get(oi) or ""
+            if data and d.endswith(" EOF") and len(lines) < (250 if quick else 5000):
+                for _ in range(2):
+                    d2, nd = foreign.dup_table_entries(data, rng)
+                    if nd:
+                        lines.append("rd s " + d2.hex()); metas.append((d, s, nd))
+    for l, (d, s, nd), a in zip(lines, metas, G.run_rd(lines)):
+        run.case(("foreign-dup", l[:200]), True, key=l); run.count("files with duplicated table entries read back")
+        if a != d and "stream:duplicate-table-entries" not in seen:
+            seen.add("stream:duplicate-table-entries")
+            run.spec_fail.append(("stream:duplicate-table-entries", l[:8000], {"duplicated entries": nd, "records of the original file": d[:1500],
+                                                                               "records of the file with duplicated entries": (a or "")[:1500]}))
+
+
 def replay(run, data):
     run.lean()
     cases = [f["case"] for f in data.get("failures", [])]
